@@ -160,7 +160,9 @@ def h_equ(ctx, fn):
             ctx.vc("the result is the IAU 1976 rotation of the given direction (1e-9)", max(abs(a_ - b_) for a_, b_ in zip(want, got)) < 1e-9)
         return
     args = ctx.it.info.get("dms2deg_args", [])
-    if len(args) < 3 or "start_angles" not in ctx.it.info:
+    if len(args) >= 3 and "start_angles" not in ctx.it.info:
+        raise KeyError("start_angles: the cut at the second assignment of `zeta` did not fire (anchor lost)")
+    if len(args) < 3 and not ctx.uf_terms("atan2"):
         # a path that returns without forming zeta, z, theta and rotating: only the identity may be returned that way
         ctx.vc("a result that is not computed by the rotation is returned only for a zero interval (where the rotation is the "
                "identity and proper motion adds nothing)", j1 == j2)
@@ -286,7 +288,9 @@ def h_ecl(ctx):
         ctx.vc("latitude in [-90, 90]", -90 <= olat <= 90)
         return
     args = ctx.it.info.get("dms2deg_args", [])
-    if len(args) < 3 or "start_angles" not in ctx.it.info or "pie_used" not in ctx.it.info:
+    if len(args) >= 3 and ("start_angles" not in ctx.it.info or "pie_used" not in ctx.it.info):
+        raise KeyError("start_angles / pie_used: a cut of precession_ecliptical did not fire (anchor lost)")
+    if len(args) < 3 and not ctx.uf_terms("atan2"):
         ctx.vc("a result that is not computed by the rotation is returned only for a zero interval (identity)", j1 == j2)
         ctx.vc("... and it is the given direction", and_(olon == lam, olat == bet))
         return
@@ -346,7 +350,9 @@ def h_orbital(ctx):
     arg, w0 = angle(ctx, "arg0")
     lon, o0 = angle(ctx, "lon0")
     out = ctx.call(COORD + "orbital_equinox2equinox", e0, e1, inc, arg, lon)
-    if "orb" not in ctx.it.info or len(ctx.it.info.get("dms2deg_args", [])) < 3:
+    if "orb" not in ctx.it.info and len(ctx.it.info.get("dms2deg_args", [])) >= 3:
+        raise KeyError("orb: the cut at `pir` of orbital_equinox2equinox did not fire (anchor lost)")
+    if len(ctx.it.info.get("dms2deg_args", [])) < 3:
         oi, ow, oo = (deg(ctx, x) for x in out)
         ctx.vc("elements that are not computed by the rotation are returned only for a zero interval (identity)", j0 == j1)
         ctx.vc("... and they are the given elements", and_(oi == i0, ow == w0, oo == o0))
